@@ -57,7 +57,7 @@ NonceBytes(ctr) == Cat(<<Zeros(4), LE64(ctr)>>)
 
 \* ---- markers used only inside TLC (never evaluated to bytes) ----
 Fail     == [op |-> "fail"]
-ZeroDH   == [op |-> "zerodh"]                       \* the all-zero shared secret
+ZeroDH   == [op |-> "zeros", n |-> 32]               \* the all-zero shared secret (= Zeros(32), so an attacker can write it down)
 LowOrder(i) == [op |-> "loworder", v |-> i]         \* i-th low-order / non-canonical u-coordinate
 Tampered(t) == [op |-> "tampered", a |-> <<t>>]     \* t with at least one bit changed
 
